@@ -666,7 +666,7 @@ Qed.
 Theorem step_ow st e st' : OW st -> step st e = ROk st' -> OW st'.
 Proof.
   intros [HW H] E. split; [eapply step_winv; eassumption|]. revert E.
-  destruct e as [c adm|c b totals|order|s b|c|s| |s|nodes newslots|ch]; cbn [step].
+  destruct e as [c adm|c b totals|order|s b|c|s| |s|nodes newslots|ch|da dd]; cbn [step].
   - destruct (lookup c (clients st)) eqn:Ec; intro E; apply ROk_inj in E; subst st'; [exact H|].
     apply (OInv_rel st); [exact HW | | exact H]. apply rel_set_client. intros cl0 E0. congruence.
   - intro E; apply ROk_inj in E; subst st'. apply ensure_dials_ow. unfold client_data.
@@ -685,6 +685,7 @@ Proof.
   - destruct (find_pool st s) as [p|]; [|intro E; apply ROk_inj in E; subst st'; exact H].
     destruct (pool_get st p) as [st1 [s1|]] eqn:Eg; pose proof (pool_get_oinv _ _ _ _ H Eg) as A; intro E; apply ROk_inj in E; subst st'; [|exact A].
     apply (OInv_frame st1); try reflexivity. exact A.
+  - intro E; apply ROk_inj in E; subst st'. apply (OInv_frame st); try reflexivity. exact H.
   - intro E; apply ROk_inj in E; subst st'. apply (OInv_frame st); try reflexivity. exact H.
   - intro E; apply ROk_inj in E; subst st'. apply (OInv_frame st); try reflexivity. exact H.
 Qed.
